@@ -43,21 +43,93 @@ def arg_names(body):
     return [names.get(i, f'arg{i}') for i in range(1, body['argc'] + 1)]
 
 
-def default_args(fn, overrides=None):
-    """builder for run_entry: every parameter is top of its type with invariants assumed.
+I32 = {'k': 'int', 's': True, 'bits': 32, 'name': 'i32'}
+U64 = {'k': 'int', 's': False, 'bits': 64, 'name': 'u64'}
+MIN_I = -(1 << 31) * NPD
+MAX_I = ((1 << 31) - 1) * NPD + NPD - 1
+
+
+def local_offset_vid(I, st):
+    key = I.cur_entry
+    tab = I.__dict__.setdefault('_local_off', {})
+    vid = tab.get(key)
+    if vid is None:
+        vid = D.sym_vid(-OFF_MAX, OFF_MAX, 'local_utc_offset')
+        tab[key] = vid
+    st.iv[vid] = D.get_iv(st, vid)
+    return vid
+
+
+def mk_offset(I, st, variant, name):
+    if variant == 'fixed':
+        o = I.top(st, I32, name + '.offset.Fixed', lo=-OFF_MAX, hi=OFF_MAX)
+        return ('e', OFFSET, {0: (o,)}), o[1]
+    return ('e', OFFSET, {1: ()}), local_offset_vid(I, st)
+
+
+def mk_time(I, st, variant, name):
+    n = I.top(st, U64, name + '.nanoseconds', lo=0, hi=NPD - 1)
+    off, _ = mk_offset(I, st, variant, name)
+    return ('s', TIME, (n, off), None)
+
+
+def mk_datetime(I, st, variant, name, local_in_range=True):
+    d = I.top(st, I32, name + '.days')
+    n = I.top(st, U64, name + '.nanoseconds', lo=0, hi=NPD - 1)
+    off, ov = mk_offset(I, st, variant, name)
+    if local_in_range:
+        # invariant LOCAL-RANGE (established by set_offset's guard): the local instant is representable
+        f = D.Aff({d[1]: NPD, n[1]: 1, ov: 10**9}, 0)
+        st.lin = st.lin + ((f, MIN_I, MAX_I),)
+    return ('s', DATETIME, (d, n, off), None)
+
+
+def _special(ty):
+    """('time'|'datetime'|'offset', by_ref) for the crate types whose offset variant is enumerated"""
+    by_ref = False
+    if ty['k'] == 'ref':
+        ty = ty['to']
+        by_ref = True
+    if ty['k'] == 'adt' and ty['path'] in (TIME, DATETIME, OFFSET):
+        return {TIME: 'time', DATETIME: 'datetime', OFFSET: 'offset'}[ty['path']], by_ref
+    return None, by_ref
+
+
+def default_args(fn, overrides=None, local_in_range=True, variants=('fixed', 'local')):
+    """builder for run_entry: yields one (state, args) per choice of offset variant of every Time /
+    DateTime / Offset parameter; every other parameter is top of its type.
     overrides: {param name: callable(I, st, ty) -> value}"""
-    def build(I, st):
+    def build(I, st0):
+        import itertools
         body = I.bodies[fn]
-        out = []
-        for i, n in enumerate(arg_names(body)):
-            ty = body['locals'][i + 1]
-            if overrides and n in overrides:
-                v = overrides[n](I, st, ty)
-            else:
-                v = I.top(st, ty, n)
-                apply_invariants(I, st, v)
-            out.append(v)
-        return out
+        names = arg_names(body)
+        kinds = [_special(body['locals'][i + 1]) for i in range(len(names))]
+        nsp = [i for i, (k, _) in enumerate(kinds) if k and not (overrides and names[i] in overrides)]
+        outs = []
+        for choice in itertools.product(variants, repeat=len(nsp)):
+            st = st0.clone()
+            ch = dict(zip(nsp, choice))
+            args = []
+            for i, n in enumerate(names):
+                ty = body['locals'][i + 1]
+                if overrides and n in overrides:
+                    v = overrides[n](I, st, ty)
+                elif i in ch:
+                    kind, by_ref = kinds[i]
+                    if kind == 'time':
+                        v = mk_time(I, st, ch[i], n)
+                    elif kind == 'datetime':
+                        v = mk_datetime(I, st, ch[i], n, local_in_range)
+                    else:
+                        v, _ = mk_offset(I, st, ch[i], n)
+                    if by_ref:
+                        v = ('r', I.alloc(st, v))
+                else:
+                    v = I.top(st, ty, n)
+                    apply_invariants(I, st, v)
+                args.append(v)
+            outs.append((st, args))
+        return outs
     return build
 
 
@@ -79,12 +151,27 @@ def install_offset_contract(I):
             outs.append((s1, v[2][0][0]))
         if 1 in v[2]:
             s2 = st.clone()
-            key = I.cur_entry
-            vid = state.get(key)
-            if vid is None:
-                vid = D.sym_vid(-OFF_MAX, OFF_MAX, 'local_utc_offset')
-                state[key] = vid
-            s2.iv[vid] = D.get_iv(s2, vid)
-            outs.append((s2, ('i', vid, 'i32')))
+            outs.append((s2, ('i', local_offset_vid(I, s2), 'i32')))
         return outs
     I.contracts['offset::Offset::resolve'] = contract
+
+
+def install_partitions(I):
+    """callers of days_to_date see its result joined per sign of the year (the only case split they need)"""
+    def by_year_sign(I, st, v):
+        if v[0] == 't' and v[1] and v[1][0][0] == 'i':
+            lo, hi = D.get_iv(st, v[1][0][1])
+            return 'neg' if hi < 0 else 'pos' if lo > 0 else 'mixed'
+        return None
+    I.return_partition['util::date::convert::days_to_date'] = by_year_sign
+
+    def by_result(I, st, v):
+        from .models import origin_of, cause_of
+        if v[0] == 'e':
+            ks = tuple(sorted(v[2]))
+            return (ks, cause_of(origin_of(I, st, v)) if 1 in v[2] else None)
+        return None
+    for f in ('util::date::convert::date_to_days', 'util::date::convert::year_doy_to_days'):
+        I.return_partition[f] = by_result
+    I.return_partition['util::date::convert::days_to_doy'] = lambda I, st, v: None
+    I.return_partition['util::date::convert::days_to_wyear'] = lambda I, st, v: None
